@@ -41,6 +41,7 @@ fn main() {
     props::install_panic_hook();
     simk::install();
     sched::install_hooks();
+    mon::waker::set_on_wake(Some(simk::enter::kernel_tick));
     // A panic anywhere is reported with the scenario position by the driver
     // (non-zero exit without a summary line).
     match props::run(&name, &args) {
